@@ -115,3 +115,42 @@ def default_to_python(default, schema, named_schemas):
                     )
             return converted
     return default
+
+
+def inline_references(schema, named_schemas, defined=None):
+    """Returns a copy of a parsed schema that stands on its own: the first
+    reference to a named type that the schema itself does not define (because
+    the type was parsed separately into `named_schemas`) is replaced by the
+    definition. The parse markers are left out of the copy."""
+    if defined is None:
+        defined = set()
+
+    if isinstance(schema, list):
+        return [inline_references(s, named_schemas, defined) for s in schema]
+
+    if not isinstance(schema, dict):
+        if schema in PRIMITIVES or schema in defined or schema not in named_schemas:
+            return schema
+        return inline_references(named_schemas[schema], named_schemas, defined)
+
+    schema_type = schema["type"]
+    result = {
+        key: value
+        for key, value in schema.items()
+        if key not in ("__fastavro_parsed", "__named_schemas")
+    }
+    if schema_type in ("record", "error", "enum", "fixed"):
+        defined.add(schema["name"])
+    if schema_type in ("record", "error"):
+        result["fields"] = [
+            dict(
+                field,
+                type=inline_references(field["type"], named_schemas, defined),
+            )
+            for field in schema["fields"]
+        ]
+    elif schema_type == "array":
+        result["items"] = inline_references(schema["items"], named_schemas, defined)
+    elif schema_type == "map":
+        result["values"] = inline_references(schema["values"], named_schemas, defined)
+    return result
